@@ -184,6 +184,16 @@ impl<'tcx> Dumper<'tcx> {
     fn dump_body(&mut self, ldid: LocalDefId, kind: DefKind, body: &Body<'tcx>) -> J {
         let mut v = self.item_header(ldid, kind);
         v.push(("mir", self.dump_mir(ldid, body)));
+        // promoted constants of this body (e.g. `&(-27..=55)`): generic functions cannot have
+        // them evaluated, so their (tiny) bodies are dumped instead
+        let proms = self.tcx.promoted_mir(ldid.to_def_id());
+        if !proms.is_empty() {
+            let mut pv = Vec::new();
+            for pb in proms.iter() {
+                pv.push(self.dump_mir(ldid, pb));
+            }
+            v.push(("promoted", J::Arr(pv)));
+        }
         J::obj(v)
     }
 
